@@ -127,7 +127,7 @@ def _execute(rm, view, cfg, ctx, sched):
                               key='optimistic-unknown' + ('/m-1' if c == m - 1 else ''))
                 else:
                     tgt = Rsum[s, a] / m + g * sum(k / m * max(Qr[t_].values()) for t_, k in Tc[s, a].items())
-                    ctx.check(abs(v - tgt) < tol + 1e-12 + 4 * float(np.spacing(max(abs(v), abs(tgt)))), 'bellman-empirical',      # (the tolerance cannot be finer than the floats it is measured in)
+                    ctx.check(abs(v - tgt) < tol + 1e-12 + 32 * float(np.spacing(max(abs(v), abs(tgt), abs(opt)))), 'bellman-empirical',      # (the tolerance cannot be finer than the floats it is measured in)
                               lambda: f"{where}: pair ({s},{a}) known (first {m} samples: R={Rsum[s, a] / m!r}, T={Tc[s, a]}) but |Q - backup| = {abs(v - tgt)!r} >= {tol}")
         if policy is not None:
             for s in Qr:
